@@ -4,7 +4,7 @@
    exceptions the code does not catch, so the statements below are real. *)
 From Coq Require Import NArith ZArith List Bool Arith.
 From XV Require Import Base.Str Base.Eqb Base.PyInt Model.Bind Model.Parser Model.ParserCorr Spec.Inject
-  Proofs.ParserWitness Proofs.ParserDoc.
+  Proofs.ParserWitness Proofs.ParserDoc Proofs.ParserCost.
 Import ListNotations.
 
 (* FULL statement: for EVERY stream of parser events the outcome is documented.  Refuted, one
@@ -89,3 +89,21 @@ Example C15_guard_clauses_separate :
   /\ wf_universe u_required = true /\ wf_universe u_anytype = true /\ wf_universe u_wildtail = true
   /\ wf_universe u_noinitwild = true /\ wf_universe u_scalarwild = true.
 Proof. repeat split; vm_compute; reflexivity. Qed.
+
+Theorem C15_outcome_documented_parse : forall cfg c u root d,
+  wf_universe u = true -> root_ok u root = true ->
+  all_required_have_defaults cfg = true -> xsi_types_ok c d = true -> tails_blank d = true ->
+  init_fields_only u = true -> well_nested d = true ->
+  outcome_documented (parse cfg c u root d) = true.
+Proof. intros. unfold parse. apply outcome_documented_main; assumption. Qed.
+Print Assumptions C15_outcome_documented_parse.
+
+(* bounded time, binding layer: the model is a structural recursion over the event list (total
+   by construction; UnionNode replays by fuel); beyond termination: one step per event, and the
+   loops over child objects (bind_objects / bind_mixed_objects / fetch_any_children) make at
+   most 2 iterations per event over the whole parse.  `run_cost` = sum over the steps of
+   1 + (number of child objects the ending node binds).  Replay work of UnionNodes not counted. *)
+Theorem C15_parse_work_linear : forall cfg c u replay root evs,
+  (run_cost cfg c u replay root init_state evs <= 3 * length evs)%nat.
+Proof. exact parse_work_linear. Qed.
+Print Assumptions C15_parse_work_linear.
